@@ -41,14 +41,15 @@ class Exec(ExprMixin, StmtMixin, CallMixin):
 
     # ---------------------------------------------------------------- schema
     def field_kind(self, cls, attr):
-        return self.schema.get(cls, {}).get(attr)
+        k = self.schema.get(cls, {}).get(attr)
+        return k[1] if isinstance(k, tuple) and k[0] == 'absent' else k
 
     def make_object(self, cls, p, name, overrides=None):
         """Fresh symbolic object of class cls from the schema."""
         oid = self.new_oid(); p.objs[oid] = {}
-        for f, k in self.schema.get(cls, {}).items():
-            k = (overrides or {}).get(f, k)
-            if k is None: continue
+        fields = dict(self.schema.get(cls, {})); fields.update(overrides or {})
+        for f, k in fields.items():
+            if k is None or (isinstance(k, tuple) and k[0] == 'absent'): continue
             p.objs[oid][f] = self.make_value(k, name + '.' + f, p)
         return VObj(oid, cls)
 
@@ -158,6 +159,15 @@ class Exec(ExprMixin, StmtMixin, CallMixin):
         if n == 'opt_is_none': return VBool(Opt.is_none(self.toopt(self.ev(a[0], p))))
         if n == 'opt_val': return VInt(Opt.v(self.toopt(self.ev(a[0], p))))
         if n == 'real': return VReal(self.toreal(self.ev(a[0], p)))
+        if n == 'has_text':
+            v = self.ev(a[0], p); lit = a[1].value
+            return VBool(any(isinstance(x, str) and lit in x for x in v.atoms))
+        if n == 'ENUM_len': return VInt(z3.Int('ENUM.len'))
+        if n == 'rec':
+            g = p.ghost.get('rec:' + a[0].value)
+            if g is None: raise StaleContract('no recorded history ' + a[0].value)
+            kind = self.rec_kinds.get(a[0].value, 'int')
+            return VList(z3.IntVal(1 << 60), g, kind)
         if n == 'joined':
             v = self.ev(a[0], p)
             if isinstance(v, VStr) and len(v.atoms) == 1 and isinstance(v.atoms[0], tuple) and v.atoms[0][0] == 'join': return v.atoms[0][2]
@@ -205,6 +215,7 @@ class Exec(ExprMixin, StmtMixin, CallMixin):
         if c is None: raise StaleContract('no contract for ' + key)
         self.fn = fn; self.contract = c; self.vcs = []; self.pure_cache = {}
         self.listsets = 'listsets' in c.get('theory', [])
+        self.rec_kinds = {nm: kd for lc in c.get('loops', {}).values() for nm, (kd, _) in lc.get('record', {}).items()}
         self.defs = dict(self.global_defs); self.defs.update(c.get('defs', {}))
         nloops = len(fn.loop_nodes)
         for o in c.get('loops', {}):
